@@ -60,3 +60,67 @@ func VerifJSCallOrder(n int) {
 	vAssert(string(got) == string(want), "host calls are neither dropped, duplicated nor reordered: "+string(src)+" => "+string(w.buf))
 	vReach("end")
 }
+
+// Declarations as statement bodies. The ECMAScript grammar admits only a Statement as the body of if / else / loops /
+// with / labels: a function, generator, async function or class declaration or a let/const declaration there is a
+// SyntaxError (Annex B tolerates `if(a)function f(){}` and `l:function f(){}` in sloppy code only, never a loop body,
+// never a class or let). The dependency's parser accepts these texts and stores loop bodies as blocks, so the check
+// is made on the output text: in these templates a declaration keyword directly after `)`, `else`, `do` or the label
+// can only be such a body.
+var jdWrappers = []string{
+	"while(a)%", "if(a)%", "if(a)%else g()", "if(a)g();else %", "if(a)%else %", "for(;;)%", "for(x in y)%", "for(x of y)%", "do % while(a)", "l:%", "with(a)%", "if(a)if(b)%",
+	"while(a)if(b)%", "if(a){}else %", "for(var i=0;i<2;i++)%", "l:while(a)%", "while(a){%}", "if(a){%}else g()",
+}
+var jdBlocks = []string{
+	"{function f(){}}", "{async function f(){}}", "{function*f(){}}", "{class A{static x=g()}}", "{let z=g(()=>z)}", "{function f(){}f()}", "{{function f(){}}}", "{function f(){g()}}",
+	"{f();function f(){}}", "{const [z]=g()}", "{;function f(){}}", "{function f(){};}",
+}
+var jdForbidden = []string{
+	")function", ")async function", ")class", ")let", ")const", "else function", "else async function", "else class", "else let", "else const", "do function", "do async function",
+	"do class", "do let", "do const", "l:function", "l:async function", "l:class", "l:let", "l:const",
+}
+
+// VerifJSDeclBody: wrapper x block x prologue (none / "use strict") x function nesting.
+func VerifJSDeclBody(n int) {
+	wr := jdWrappers[vChoice("wrapper", len(jdWrappers))]
+	bl := jdBlocks[vChoice("block", len(jdBlocks))]
+	var src []byte
+	if vBool("strict") {
+		src = append(src, "\"use strict\";"...)
+	}
+	inFunc := vBool("infunc")
+	if inFunc {
+		src = append(src, "function m(a,b,y){"...)
+	}
+	for i := 0; i < len(wr); i++ {
+		if wr[i] == '%' {
+			src = append(src, bl...)
+		} else {
+			src = append(src, wr[i])
+		}
+	}
+	if inFunc {
+		src = append(src, '}')
+	}
+	o := &Minifier{KeepVarNames: vBool("keepvarnames")}
+	w := &vWriter{}
+	err := o.Minify(nil, w, &vReader{b: append([]byte(nil), src...)}, nil)
+	vReach("after-call")
+	vOutput("out", w.buf)
+	vAssert(err == nil, "accepted")
+	for _, f := range jdForbidden {
+		vAssert(!jHasText(w.buf, f), "a declaration is not a statement: it cannot be the body of if/else/loop/with/label: "+string(src)+" => "+string(w.buf))
+	}
+	vAssert(string(jcCallSeq2(w.buf)) == string(jcCallSeq2(src)), "calls of g kept")
+	vReach("end")
+}
+
+func jcCallSeq2(b []byte) []byte {
+	var seq []byte
+	for i := 0; i+1 < len(b); i++ {
+		if b[i] == 'g' && b[i+1] == '(' && (i == 0 || !(b[i-1] >= 'a' && b[i-1] <= 'z' || b[i-1] >= 'A' && b[i-1] <= 'Z' || b[i-1] == '_' || b[i-1] == '$' || b[i-1] >= '0' && b[i-1] <= '9')) {
+			seq = append(seq, 'g')
+		}
+	}
+	return seq
+}
